@@ -102,3 +102,65 @@ example : blockKey [[0,0,0,0],[0,0,0,0],[0,0,0,0],[0,0,0,0]] 1 ⟨0, 1, 0, 2⟩
     ≠ blockKey [[0,0,0,0],[0,0,0,0],[0,0,0,0],[0,0,0,0]] 1 ⟨0, 2, 0, 1⟩ := by decide
 
 end Cpl.C04
+
+/-! ## Translation equivariance (periodic boundary)
+
+`evolve2d` level of `C02.pureRun2_shift`: translating the torus handed to `evolve2d` translates every
+grid it returns, for every rule whose result depends only on the neighbourhood it is handed, in every
+supported mode and for both neighbourhood types. Convention (`C02.shift2`): cell `(i, j)` of
+`shift2 R C dx dy g` is cell `((i + dx) mod R, (j + dy) mod C)` of `g`. -/
+
+namespace Cpl.C04
+open Cpl Cpl.Spec
+
+variable {σ σ' α : Type}
+
+/-- **General form**: a whole history may be given (all its grids translated); the two evolutions may
+    even use different rule objects / rule states / memoization modes as long as both compute `f`. -/
+theorem evolve2d_shift_hist [DecidableEq α] [Inhabited α] (rule : Rule2 σ α) (rule' : Rule2 σ' α)
+    (f : Nbhd2 α → α) (hp : PureVal2 rule f) (hp' : PureVal2 rule' f) (mode mode' : Mode)
+    (hm : mode ≠ .bad) (hm' : mode' ≠ .bad) (hist : List (Grid α)) (init : Grid α)
+    (hlast : hist.getLast? = some init) (T : Nat) (hT : 1 ≤ T) (R C r dx dy : Nat) (nb : NbType)
+    (hnb : nb ≠ .unknown) (hg : Rect init R C) (hR1 : 1 ≤ R) (hC1 : 1 ≤ C) (hR : r ≤ R) (hC : r ≤ C)
+    (s : σ) (s' : σ') :
+    (evolve2dFixed (hist.map (C02.shift2 R C dx dy)) T rule r nb mode s).map Prod.fst
+      = ((evolve2dFixed hist T rule' r nb mode' s').map Prod.fst).map (·.map (C02.shift2 R C dx dy)) := by
+  have hlast' : (hist.map (C02.shift2 R C dx dy)).getLast? = some (C02.shift2 R C dx dy init) := by
+    rw [List.getLast?_map, hlast]; rfl
+  rw [evolve2dFixed_grids_pure rule f hp mode hm _ (C02.shift2 R C dx dy init) hlast' T hT R C r nb hnb
+      (C02.shift2_rect R C dx dy init) hR1 hC1 hR hC s,
+    evolve2dFixed_grids_pure rule' f hp' mode' hm' hist init hlast T hT R C r nb hnb hg hR1 hC1 hR hC s',
+    C02.pureRun2_shift f R C r dx dy _ (T - 1) init hR1 hC1 hR hC]
+  simp [Except.map]
+
+/-- **`evolve2d` commutes with translation of the initial torus**: for a rule computing the pure
+    function `f`, in every mode (off / True / 'recursive'), Moore and von Neumann, `r ≤ min(R, C)`,
+    `T ≥ 1` and every offset `(dx, dy)` (also beyond the shape). -/
+theorem evolve2d_shift [DecidableEq α] [Inhabited α] (rule : Rule2 σ α) (f : Nbhd2 α → α)
+    (hp : PureVal2 rule f) (mode : Mode) (hm : mode ≠ .bad) (g : Grid α) (T : Nat) (hT : 1 ≤ T)
+    (R C r dx dy : Nat) (nb : NbType) (hnb : nb ≠ .unknown) (hg : Rect g R C) (hR1 : 1 ≤ R) (hC1 : 1 ≤ C)
+    (hR : r ≤ R) (hC : r ≤ C) (s : σ) :
+    (evolve2dFixed [C02.shift2 R C dx dy g] T rule r nb mode s).map Prod.fst
+      = ((evolve2dFixed [g] T rule r nb mode s).map Prod.fst).map (·.map (C02.shift2 R C dx dy)) := by
+  exact evolve2d_shift_hist rule rule f hp hp mode mode hm hm [g] g rfl T hT R C r dx dy nb hnb hg hR1 hC1
+    hR hC s s
+
+/-- The same with both sides spelled out: the grids are the translated grids of the pure run. -/
+theorem evolve2d_shift_grids [DecidableEq α] [Inhabited α] (rule : Rule2 σ α) (f : Nbhd2 α → α)
+    (hp : PureVal2 rule f) (mode : Mode) (hm : mode ≠ .bad) (g : Grid α) (T : Nat) (hT : 1 ≤ T)
+    (R C r dx dy : Nat) (nb : NbType) (hnb : nb ≠ .unknown) (hg : Rect g R C) (hR1 : 1 ≤ R) (hC1 : 1 ≤ C)
+    (hR : r ≤ R) (hC : r ≤ C) (s : σ) :
+    (evolve2dFixed [C02.shift2 R C dx dy g] T rule r nb mode s).map Prod.fst
+      = .ok ((g :: pureRun2 f R C r (decide (nb = .vonNeumann)) (T - 1) g).map (C02.shift2 R C dx dy)) := by
+  rw [evolve2d_shift rule f hp mode hm g T hT R C r dx dy nb hnb hg hR1 hC1 hR hC s,
+    evolve2dFixed_grids_pure rule f hp mode hm [g] g rfl T hT R C r nb hnb hg hR1 hC1 hR hC s]
+  rfl
+
+/-! ### Non-vacuity (recorder around an asymmetric rule — north + 2 · east — on a 2×3 torus,
+    memoization on, von Neumann, offsets beyond the shape) -/
+example : ((evolve2dFixed [C02.shift2 2 3 3 5 [[1, 2, 3], [4, 5, 6]]] 2
+      (recorder2 (fun n : Nbhd2 Nat => ((n[0]!)[1]!).getD 9 + 2 * ((n[1]!)[2]!).getD 9)) 1 .vonNeumann .memo
+      []).map Prod.fst).toOption
+    = some ([[[1, 2, 3], [4, 5, 6]], [[8, 11, 8], [11, 14, 11]]].map (C02.shift2 2 3 3 5)) := by decide
+
+end Cpl.C04
